@@ -735,17 +735,3 @@ Example open_close_executed :
   end.
 Proof. vm_compute. repeat split; reflexivity. Qed.
 
-Print Assumptions mp_length.
-Print Assumptions mp_sorted.
-Print Assumptions mp_images.
-Print Assumptions mp_mult_start.
-Print Assumptions mp_mult_end.
-Print Assumptions mp_seam_smooth.
-Print Assumptions mp_seam_rows.
-Print Assumptions open_of_make_periodic.
-Print Assumptions close_open_make_periodic.
-Print Assumptions open_close_knots.
-Print Assumptions make_periodic_canonical.
-Print Assumptions circle_open_close.
-Print Assumptions split_roll_opens.
-Print Assumptions split_opens_at_seam.
